@@ -58,6 +58,10 @@ func init() {
 		c, ok := decPos(a[0]).VerifHasRoad()
 		return fmt.Sprintf("%d %d", c, b2i(ok))
 	}
+	opTable["fn.windetails"] = func(s *Session, a []string) string {
+		d := decPos(a[0]).WinDetails()
+		return fmt.Sprintf("%d %d %d %d %d", b2i(d.Over), int(d.Reason), d.Winner, d.WhiteFlats, d.BlackFlats)
+	}
 	opTable["fn.floodgroups"] = func(s *Session, a []string) string {
 		c := bitboard.Precompute(uint(atoi(a[0])))
 		return u64s(bitboard.FloodGroups(&c, atou(a[1]), parseU64s(a[2])))
@@ -246,6 +250,7 @@ func genFNROAD(c *Ctx) {
 		if p != nil {
 			// the 18-field form carries the group lists the real analyze() computed: hasRoad is compared on the same groups
 			c.Count("hasroad=" + c.Emit("fn.hasroad "+dumpPos(p)))
+			c.Emit("fn.windetails " + dumpPos(p))
 		}
 		mask := uint64(1)<<uint(size*size) - 1
 		bits := edgeU64(c.R)
